@@ -82,6 +82,39 @@ def events(seed, ncfg, nper):
                        "p": bits(p), "lo": bits(lo), "hi": bits(hi),
                        "_m": {"reused_object": True, "spectrum": type(spectrum).__name__, "index": p, "lo": lo, "hi": hi,
                               "norm": float(norm), "wsum": float(wsum)}})
+    # ONE spectrum object edited in place between uses (a scan over bounds / index on a live configuration), and copies made with
+    # model_copy(update=...) after first use: every sample must follow the numbers the object holds NOW
+    c = make_config({})
+    spec0 = Simulation.PowerSpectrum(index=2.0, lower_bound=6.0, upper_bound=12.0)
+    c.simulation.spectrum = spec0
+    sp = Spectra(c)
+    script = np.array([0.05, 0.3, 0.5, 0.7, 0.95, 0.999])
+    steps = [("use", {}), ("inplace", {"upper_bound": 9.0}), ("inplace", {"lower_bound": 7.5}), ("inplace", {"index": 3.1}),
+             ("copy", {"upper_bound": 11.0, "lower_bound": 6.5}), ("inplace", {"index": 0.5}), ("copy", {"index": 1.0}), ("inplace", {"upper_bound": 12.0})]
+    for how, upd in steps:
+        if how == "inplace":
+            for k, v in upd.items():
+                setattr(c.simulation.spectrum, k, v)
+        elif how == "copy":
+            c.simulation.spectrum = c.simulation.spectrum.model_copy(update=upd)
+        cur = c.simulation.spectrum
+        p, lo, hi = float(cur.index), float(cur.lower_bound), float(cur.upper_bound)
+        meta0 = {"index": p, "lo": lo, "hi": hi, "edited": how, "update": upd}
+        try:
+            with rngmod.Scripted(script) as sc:
+                x, norm, wsum = sp(len(script))
+            x = np.atleast_1d(np.asarray(x, dtype=float))
+            u = np.concatenate([np.ravel(v) for v in sc.served]) if sc.served else np.array([])
+        except Exception as ex:
+            ev.append({"kind": "call", "n": len(script), "len": -1, "norm": bits(float("nan")), "wsum": bits(float("nan")), "spec": "power",
+                       "p": bits(p), "lo": bits(lo), "hi": bits(hi), "_m": dict(meta0, error=repr(ex)[:200])})
+            continue
+        ev.append({"kind": "call", "n": len(script), "len": int(len(x)), "norm": bits(norm), "wsum": bits(wsum), "spec": "power",
+                   "p": bits(p), "lo": bits(lo), "hi": bits(hi), "_m": dict(meta0, norm=float(norm), wsum=float(wsum))})
+        if len(u) == len(x):
+            for i in range(len(x)):
+                ev.append({"kind": "power", "x": bits(x[i]), "u": bits(min(u[i], 1.0)), "p": bits(p), "lo": bits(lo), "hi": bits(hi),
+                           "_m": dict(meta0, u=float(u[i]), x=float(x[i]))})
     for le in (6.0, 8.0, 9.3, 12.0, float(rng.uniform(6, 12))):
         c = make_config({})
         c.simulation.spectrum = Simulation.MonoSpectrum(log_nu_energy=le)
